@@ -435,7 +435,9 @@ impl Store {
     #[tracing::instrument(skip(self), fields(id = %id.to_string()))]
     pub fn remove(&self, id: &Scru128Id) -> Result<(), crate::error::Error> {
         let Some(frame) = self.get(id) else {
-            // Already deleted
+            // Already deleted - possibly by a removal (e.g. the GC's) that has been applied
+            // but not yet synced: make it durable before acknowledging this one.
+            self.keyspace.persist(fjall::PersistMode::SyncAll)?;
             return Ok(());
         };
 
